@@ -102,10 +102,11 @@ let rand_blist r n = bytes_of_ints (rand_bytes r n)
 (* ---------------------------------------------------------------- list cases *)
 type lcase = {
   be : bool; asize : int; version : int; dwo : bool;
-  base : Z.t; addr_base : int; offset : Z.t;
+  base : Z.t; addr_base : int; offset : Z.t Lazy.t;
   debug_addr : Byte0.byte list;
-  legacy : Byte0.byte list;     (* .debug_ranges / .debug_loc *)
-  v5 : Byte0.byte list;         (* .debug_rnglists / .debug_loclists *)
+  (* lazy: every shard draws every case (one PRNG stream) but only encodes the cases it keeps *)
+  legacy : Byte0.byte list Lazy.t;     (* .debug_ranges / .debug_loc *)
+  v5 : Byte0.byte list Lazy.t;         (* .debug_rnglists / .debug_loclists *)
   rents : lent list option;     (* the well-formed entries the bytes were generated from *)
   lents : lloc list option;
 }
@@ -180,14 +181,16 @@ let gen_case r ~wf ~loc : lcase =
       List.filter (fun x -> if loc then (if bare then wf_locpair c x else wf_lle c x)
                             else (if bare then wf_pair c (fst x) else wf_rle c (fst x))) lents in
   let ents = List.map fst lents in
-  let body =
+  let body = lazy (
     if loc then (if bare then enc_loc c lents else enc_loclist c lents)
-    else (if bare then enc_ranges c ents else enc_rnglist c ents) in
+    else (if bare then enc_ranges c ents else enc_rnglist c ents)) in
   let off = rand_int r 5 in
-  let sect = rand_blist r off @ body @ rand_blist r (rand_int r 4) in
-  let decoy = rand_blist r (rand_int r 12) in
+  let pre = rand_blist r off in
+  let post = rand_blist r (rand_int r 4) in
+  let sect = lazy (pre @ Lazy.force body @ post) in
+  let decoy = Lazy.from_val (rand_blist r (rand_int r 12)) in
   let base = match rand_int r 4 with 0 -> Z.zero | _ -> baddr r sz in
-  { be; asize = sz; version; dwo; base; addr_base; offset = Z.of_int off; debug_addr;
+  { be; asize = sz; version; dwo; base; addr_base; offset = Lazy.from_val (Z.of_int off); debug_addr;
     legacy = (if version <= 4 then sect else decoy);
     v5 = (if version <= 4 then decoy else sect);
     rents = (if loc then None else Some ents);
@@ -196,32 +199,46 @@ let gen_case r ~wf ~loc : lcase =
 (* field-aware damage for the model streams *)
 let overlong = [| [0xff;0xff;0xff;0xff;0xff;0xff;0xff;0xff;0xff;0x01]; [0xff;0xff;0xff;0xff;0xff;0xff;0xff;0xff;0xff;0x02];
                   [0x80;0x80;0x80;0x80;0x80;0x80;0x80;0x80;0x80;0x80;0x00]; [0x80;0x00]; [0xff;0x7f]; [0x80] |]
-let mutate_bytes r (l : Byte0.byte list) : Byte0.byte list =
-  let a = Array.of_list l in
-  let n = Array.length a in
-  match rand_int r 7 with
-  | 0 -> Array.to_list (Array.sub a 0 (rand_int r (n + 1)))                       (* truncate *)
-  | 1 when n > 0 -> let i = rand_int r n in a.(i) <- byte_of_int (rand_int r 256); Array.to_list a
-  | 2 when n > 0 -> let i = rand_int r n in a.(i) <- byte_of_int (pick r [| 0; 0xff; 0x80; 0x7f; 9; 8; 0xfe |]); Array.to_list a
-  | 3 -> let i = rand_int r (n + 1) in                                           (* splice an extreme LEB *)
-      Array.to_list (Array.sub a 0 i) @ bytes_of_ints (pick r overlong) @ Array.to_list (Array.sub a i (n - i))
-  | 4 when n > 1 -> let i = rand_int r n in                                       (* delete one byte *)
-      Array.to_list (Array.sub a 0 i) @ Array.to_list (Array.sub a (i + 1) (n - i - 1))
-  | 5 -> l @ rand_blist r (1 + rand_int r 6)
-  | _ -> l
+(* all random choices are drawn up front (so the PRNG stream does not depend on the bytes) *)
+let mutation r : Byte0.byte list -> Byte0.byte list =
+  let kind = rand_int r 7 in
+  let p = rand_int r 1000003 in
+  let b1 = byte_of_int (rand_int r 256) in
+  let b2 = byte_of_int (pick r [| 0; 0xff; 0x80; 0x7f; 9; 8; 0xfe |]) in
+  let ov = bytes_of_ints (pick r overlong) in
+  let extra = rand_blist r (1 + rand_int r 6) in
+  fun l ->
+    let a = Array.of_list l in
+    let n = Array.length a in
+    match kind with
+    | 0 -> Array.to_list (Array.sub a 0 (p mod (n + 1)))                           (* truncate *)
+    | 1 when n > 0 -> a.(p mod n) <- b1; Array.to_list a
+    | 2 when n > 0 -> a.(p mod n) <- b2; Array.to_list a
+    | 3 -> let i = p mod (n + 1) in                                               (* splice an extreme LEB *)
+        Array.to_list (Array.sub a 0 i) @ ov @ Array.to_list (Array.sub a i (n - i))
+    | 4 when n > 1 -> let i = p mod n in                                           (* delete one byte *)
+        Array.to_list (Array.sub a 0 i) @ Array.to_list (Array.sub a (i + 1) (n - i - 1))
+    | 5 -> l @ extra
+    | _ -> l
+let mutate_bytes r (l : Byte0.byte list) : Byte0.byte list = mutation r l
+let lmap f (x : 'a Lazy.t) = lazy (f (Lazy.force x))
 
 let damage r (cs : lcase) : lcase =
   let cs = if rand_int r 3 > 0 then
-      (if cs.version <= 4 then { cs with legacy = mutate_bytes r cs.legacy } else { cs with v5 = mutate_bytes r cs.v5 })
+      (let m = mutation r in
+       if cs.version <= 4 then { cs with legacy = lmap m cs.legacy } else { cs with v5 = lmap m cs.v5 })
     else cs in
   let cs = if rand_int r 10 = 0 then { cs with asize = pick r bad_sizes } else cs in
   let cs = if rand_int r 10 = 0 then { cs with debug_addr = mutate_bytes r cs.debug_addr } else cs in
   let cs = if rand_int r 12 = 0 then { cs with addr_base = pick r [| 0; 1; 200; 7 |] } else cs in
   let cs = if rand_int r 10 = 0 then
-      { cs with offset = (match rand_int r 5 with
-          | 0 -> Z.of_int (List.length (if cs.version <= 4 then cs.legacy else cs.v5))
-          | 1 -> Z.of_int (1 + List.length (if cs.version <= 4 then cs.legacy else cs.v5))
-          | 2 -> zmax64 | 3 -> p2 63 | _ -> Z.of_int (rand_int r 8)) }
+      (let k = rand_int r 5 in
+       let small = rand_int r 8 in
+       let len () = List.length (Lazy.force (if cs.version <= 4 then cs.legacy else cs.v5)) in
+       { cs with offset = lazy (match k with
+          | 0 -> Z.of_int (len ())
+          | 1 -> Z.of_int (1 + len ())
+          | 2 -> zmax64 | 3 -> p2 63 | _ -> Z.of_int small) })
     else cs in
   { cs with rents = None; lents = None }
 
@@ -238,33 +255,33 @@ let gen_bytes_case r ~loc : lcase =
     | 0 -> rand_int r 10 | 1 -> pick r [| 0; 1; 2; 0xff; 0xfe; 0x80; 0x7f |] | 2 -> rand_int r 4
     | _ -> rand_int r 256) |> bytes_of_ints in
   { be; asize = sz; version; dwo; base = baddr r (if sz >= 1 && sz <= 8 then sz else 4); addr_base;
-    offset = Z.of_int (if n > 0 && rand_int r 4 = 0 then rand_int r n else 0); debug_addr;
-    legacy = sect; v5 = sect; rents = None; lents = None }
+    offset = Lazy.from_val (Z.of_int (if n > 0 && rand_int r 4 = 0 then rand_int r n else 0)); debug_addr;
+    legacy = Lazy.from_val sect; v5 = Lazy.from_val sect; rents = None; lents = None }
 
 let lctx_of (cs : lcase) = { ListsRd.x_addr = cs.debug_addr; x_addr_base = n_of_int cs.addr_base }
 let cfg_of (cs : lcase) = mkcfg cs.be cs.asize cs.version
 
 let rng_line name (cs : lcase) =
   Printf.sprintf "%s %s %d %d %s %d %s %s %s %s" name (b01 cs.be) cs.asize cs.version (Z.to_string cs.base)
-    cs.addr_base (Z.to_string cs.offset) (hex_of_bytes cs.debug_addr) (hex_of_bytes cs.legacy) (hex_of_bytes cs.v5)
+    cs.addr_base (Z.to_string (Lazy.force cs.offset)) (hex_of_bytes cs.debug_addr) (hex_of_bytes (Lazy.force cs.legacy)) (hex_of_bytes (Lazy.force cs.v5))
 let loc_line name (cs : lcase) =
   Printf.sprintf "%s %s %d %d %s %s %d %s %s %s %s" name (b01 cs.be) cs.asize cs.version (b01 cs.dwo) (Z.to_string cs.base)
-    cs.addr_base (Z.to_string cs.offset) (hex_of_bytes cs.debug_addr) (hex_of_bytes cs.legacy) (hex_of_bytes cs.v5)
+    cs.addr_base (Z.to_string (Lazy.force cs.offset)) (hex_of_bytes cs.debug_addr) (hex_of_bytes (Lazy.force cs.legacy)) (hex_of_bytes (Lazy.force cs.v5))
 let rraw_line name (cs : lcase) =
-  Printf.sprintf "%s %s %d %d %s %s %s" name (b01 cs.be) cs.asize cs.version (Z.to_string cs.offset)
-    (hex_of_bytes cs.legacy) (hex_of_bytes cs.v5)
+  Printf.sprintf "%s %s %d %d %s %s %s" name (b01 cs.be) cs.asize cs.version (Z.to_string (Lazy.force cs.offset))
+    (hex_of_bytes (Lazy.force cs.legacy)) (hex_of_bytes (Lazy.force cs.v5))
 let lraw_line name (cs : lcase) =
-  Printf.sprintf "%s %s %d %d %s %s %s %s" name (b01 cs.be) cs.asize cs.version (b01 cs.dwo) (Z.to_string cs.offset)
-    (hex_of_bytes cs.legacy) (hex_of_bytes cs.v5)
+  Printf.sprintf "%s %s %d %d %s %s %s %s" name (b01 cs.be) cs.asize cs.version (b01 cs.dwo) (Z.to_string (Lazy.force cs.offset))
+    (hex_of_bytes (Lazy.force cs.legacy)) (hex_of_bytes (Lazy.force cs.v5))
 
 let model_rng dbg cs =
-  pr_events pr_range (ListsRd.ranges_all dbg (cfg_of cs) (lctx_of cs) cs.legacy cs.v5 (nz cs.offset) (nz cs.base))
+  pr_events pr_range (ListsRd.ranges_all dbg (cfg_of cs) (lctx_of cs) (Lazy.force cs.legacy) (Lazy.force cs.v5) (nz (Lazy.force cs.offset)) (nz cs.base))
 let model_loc dbg cs =
-  pr_events pr_locrange (ListsRd.locations_all dbg (cfg_of cs) cs.dwo (lctx_of cs) cs.legacy cs.v5 (nz cs.offset) (nz cs.base))
+  pr_events pr_locrange (ListsRd.locations_all dbg (cfg_of cs) cs.dwo (lctx_of cs) (Lazy.force cs.legacy) (Lazy.force cs.v5) (nz (Lazy.force cs.offset)) (nz cs.base))
 let model_rraw dbg cs =
-  pr_events pr_lent (ListsRd.raw_ranges_all dbg (cfg_of cs) cs.legacy cs.v5 (nz cs.offset))
+  pr_events pr_lent (ListsRd.raw_ranges_all dbg (cfg_of cs) (Lazy.force cs.legacy) (Lazy.force cs.v5) (nz (Lazy.force cs.offset)))
 let model_lraw dbg cs =
-  pr_events pr_lloc (ListsRd.raw_locations_all dbg (cfg_of cs) cs.dwo cs.legacy cs.v5 (nz cs.offset))
+  pr_events pr_lloc (ListsRd.raw_locations_all dbg (cfg_of cs) cs.dwo (Lazy.force cs.legacy) (Lazy.force cs.v5) (nz (Lazy.force cs.offset)))
 
 (* expected value computed from the SPEC (ListSpec.resolve_rng, resolve_loc); the model must agree (theorem resolve_refines) *)
 let spec_tbl cs = addr_table cs.be (n_of_int cs.asize) cs.debug_addr (n_of_int cs.addr_base)
@@ -330,8 +347,8 @@ let () =
       List.iter (fun version ->
         small_sections (fun l ->
           let sect = bytes_of_ints l in
-          let cs = { be = false; asize = 1; version; dwo = false; base = Z.of_int 0x10; addr_base = 0; offset = Z.zero;
-                     debug_addr = fixed_addr_table false; legacy = sect; v5 = sect; rents = None; lents = None } in
+          let cs = { be = false; asize = 1; version; dwo = false; base = Z.of_int 0x10; addr_base = 0; offset = Lazy.from_val Z.zero;
+                     debug_addr = fixed_addr_table false; legacy = Lazy.from_val sect; v5 = Lazy.from_val sect; rents = None; lents = None } in
           both_l emit (fun () -> rng_line "c08.rngb" cs) (fun dbg -> model_rng dbg cs))) [5; 4];
       let r = mk_rng (seed + 202) in
       for _ = 1 to n do
@@ -358,8 +375,8 @@ let () =
       List.iter (fun (version, dwo) ->
         small_sections (fun l ->
           let sect = bytes_of_ints l in
-          let cs = { be = false; asize = 1; version; dwo; base = Z.of_int 0x10; addr_base = 0; offset = Z.zero;
-                     debug_addr = fixed_addr_table false; legacy = sect; v5 = sect; rents = None; lents = None } in
+          let cs = { be = false; asize = 1; version; dwo; base = Z.of_int 0x10; addr_base = 0; offset = Lazy.from_val Z.zero;
+                     debug_addr = fixed_addr_table false; legacy = Lazy.from_val sect; v5 = Lazy.from_val sect; rents = None; lents = None } in
           both_l emit (fun () -> loc_line "c08.locb" cs) (fun dbg -> model_loc dbg cs))) [(5, false); (4, false); (4, true)];
       let r = mk_rng (seed + 505) in
       for _ = 1 to n do
@@ -367,31 +384,30 @@ let () =
         both_l emit (fun () -> loc_line "c08.locb" cs) (fun dbg -> model_loc dbg cs)
       done);
   (* ---------------- raw iteration *)
-  register "c08.rraw" ~doc:"RangeLists::raw_ranges: well-formed lists read back as the encoded entries (expected = the entries), then damaged lists (expected = model)"
+  register "c08.rraw" ~doc:"RangeLists::raw_ranges: well-formed lists of every kind read back as exactly the encoded entries (expected = the entries)"
     (fun ~seed ~n emit ->
       let r = mk_rng (seed + 606) in
-      for i = 1 to n do
+      for _ = 1 to n do
         let cs = gen_case r ~wf:true ~loc:false in
-        if i mod 3 <> 0 then begin
-          let s () = Some ("ok" ^ String.concat "" (List.map (fun e -> " " ^ pr_lent e) (Option.get cs.rents))) in
-          emit_spec emit (fun () -> rraw_line "c08.rraw" cs) s (fun dbg -> model_rraw dbg cs)
-        end else begin
-          let cs = damage r cs in
-          both_l emit (fun () -> rraw_line "c08.rraw" cs) (fun dbg -> model_rraw dbg cs)
-        end
+        let s () = Some ("ok" ^ String.concat "" (List.map (fun e -> " " ^ pr_lent e) (Option.get cs.rents))) in
+        emit_spec emit (fun () -> rraw_line "c08.rraw" cs) s (fun dbg -> model_rraw dbg cs)
       done);
-  register "c08.lraw" ~doc:"LocationLists::raw_locations(_dwo): well-formed lists read back as the encoded entries, then damaged lists"
+  register "c08.lraw" ~doc:"LocationLists::raw_locations(_dwo): well-formed lists read back as exactly the encoded entries"
     (fun ~seed ~n emit ->
       let r = mk_rng (seed + 707) in
-      for i = 1 to n do
+      for _ = 1 to n do
         let cs = gen_case r ~wf:true ~loc:true in
-        if i mod 3 <> 0 then begin
-          let s () = Some ("ok" ^ String.concat "" (List.map (fun e -> " " ^ pr_lloc e) (Option.get cs.lents))) in
-          emit_spec emit (fun () -> lraw_line "c08.lraw" cs) s (fun dbg -> model_lraw dbg cs)
-        end else begin
-          let cs = damage r cs in
-          both_l emit (fun () -> lraw_line "c08.lraw" cs) (fun dbg -> model_lraw dbg cs)
-        end
+        let s () = Some ("ok" ^ String.concat "" (List.map (fun e -> " " ^ pr_lloc e) (Option.get cs.lents))) in
+        emit_spec emit (fun () -> lraw_line "c08.lraw" cs) s (fun dbg -> model_lraw dbg cs)
+      done);
+  register "c08.rawm" ~doc:"raw_ranges / raw_locations(_dwo) on damaged lists and arbitrary bytes (stop-after-error, unknown opcodes, truncation)"
+    (fun ~seed ~n emit ->
+      let r = mk_rng (seed + 1111) in
+      for i = 1 to n do
+        let loc = i land 1 = 0 in
+        let cs = if i mod 4 < 2 then damage r (gen_case r ~wf:(rand_bool r) ~loc) else gen_bytes_case r ~loc in
+        if loc then both_l emit (fun () -> lraw_line "c08.lraw" cs) (fun dbg -> model_lraw dbg cs)
+        else both_l emit (fun () -> rraw_line "c08.rraw" cs) (fun dbg -> model_rraw dbg cs)
       done);
   (* ---------------- indexed tables *)
   register "c08.tbl" ~doc:"get_offset (rnglists, loclists) / get_str_offset / get_address: extreme indices and bases; every address size 0..255"
